@@ -22,16 +22,70 @@ import nasim.envs.environment as m_env
 ID = "C13"
 TECHNIQUE = "symbolic execution of the real generative_step then step (same symbolic draw) by z3 proxy values; per-cell purity obligations; storage identity tracked in the array model; counterexample replay with numpy.shares_memory"
 needs_reach = True
-EXTRA_STUBS = dyn.EXTRA_STUBS
-REQUIRED_WITNESSES = ['success_exploit', 'success_subnet_scan', 'failure', 'other_state', 'current_state']
+from .. import loaderh as _loaderh
+EXTRA_STUBS = dyn.EXTRA_STUBS + _loaderh.EXTRA_STUBS
+REQUIRED_WITNESSES = ['success_exploit', 'success_subnet_scan', 'failure', 'other_state', 'current_state', 'loaded_repeat']
 STUBS, ASSUMPTIONS = common.STUBS, common.ASSUMPTIONS
 BOUNDS = dict(quick="shapes [1,1],[2,1]; S=2,O=2,P=1; every action kind on first/last host; x = current state and x = a different State object (arbitrary Inv-state)",
               thorough="adds [1,1,1],[1,2], every target and name")
 prefer = common.prefer
 
 
+def loaded_queries():
+    # skeleton B: subnet 1 (two hosts, public) - subnet 2 (one host); the host firewall of (2,0)
+    # is solver-selected, so a deny entry for one of the two possible pivots can be decisive
+    return [dict(kind='loaded_repeat', skel='B', numtype='float', sym=['hostfw'], picks=[], target=[2, 0],
+                 hostfw_on=[2, 0], service=s_, loaded=True) for s_ in ('ssh', 'ftp')]
+
+
+def run_loaded(src, q):
+    """generative_step asked twice and then step(), on an environment built from a loaded file
+    whose host firewall is decisive (skeleton: host (1,0) denies the first service from the last
+    host; the internet rule is solver-selected)"""
+    from .. import loaderh, loaded
+    import nasim.envs.action as m_act
+    r = dyn.Rec()
+    r.q = q
+    doc, exp = loaderh.skeleton(src, q)
+    sc = loaderh.load(src, doc)
+    w = loaded.world_from_document(src, exp, sc)
+    r.w = w
+    target = tuple(q['target'])
+    A = scen.World()
+    A.kind, A.target, A.name, A.os = 'exploit', target, q['service'], None
+    A.cost, A.req, A.prob, A.grant = 1, 1, 1.0, 2
+    A.obj = m_act.Exploit("e_x", target, cost=1, service=A.name, os=None, access=2, prob=1.0)
+    r.A = A
+    with stubs.sut():
+        env = m_env.NASimEnv(sc, fully_obs=True, flat_obs=False)
+    r.pre = scen.symbolic_state(w, env.current_state)
+    r.st = scen.zstatus(r.pre)
+    if src.symbolic:
+        sx.assume(scen.inv(w, r.st))
+        sx.check_feasible()
+    x = env.current_state
+    outs = []
+    with stubs.ScriptedRand([], default=0.0):
+        for _ in range(2):
+            with stubs.sut():
+                ns, obs, reward, done, info = env.generative_step(x, A.obj)
+            outs.append(dict(ns_rows=dyn.tensor_rows(ns.tensor), reward=spec.real(sx.znum(reward)),
+                             done=sx.zbool(done), info=info_terms(info)))
+        with stubs.sut():
+            o2, reward2, done2, lim2, info2 = env.step(A.obj)
+        outs.append(dict(ns_rows=dyn.tensor_rows(env.current_state.tensor), reward=spec.real(sx.znum(reward2)),
+                         done=sx.zbool(done2), info=info_terms(info2)))
+    r.outs = outs
+    r.res = dict(success=sx.zbool(info['success']), value=spec.real(sx.znum(info['value'])),
+                 conn=sx.zbool(info['connection_error']), perm=sx.zbool(info['permission_error']),
+                 undef=sx.zbool(info['undefined_error']))
+    r.post = None
+    r.ndraws = 0
+    return r
+
+
 def queries(tier, seed=0):
-    qs = []
+    qs = loaded_queries()
     for q in dyn.base_queries(tier, level='gen'):
         sh = q['shape']['sizes']
         if tier == 'quick' and (len(sh) > 2 or q.get('os') is not None):
@@ -63,6 +117,8 @@ def info_terms(info):
 
 
 def run(src, q):
+    if q.get('loaded'):
+        return run_loaded(src, q)
     shape = Shape.from_json(q['shape'])
     limit = src.int('limit', 1, None) if not q.get('other_state') else None
     w = scen.build_world(src, shape, step_limit=limit, host_order=q.get('host_order'))
@@ -171,6 +227,13 @@ def run(src, q):
 
 
 def obligations(r):
+    if r.q.get('loaded'):
+        a, b, c = r.outs
+        same = lambda x, y: z3.And(common.rows_equal(x['ns_rows'], y['ns_rows']), x['reward'] == y['reward'],
+                                   x['done'] == y['done'],
+                                   z3.And([x['info'][k] == y['info'][k] for k in x['info']]) if set(x['info']) == set(y['info']) else z3.BoolVal(False))
+        return [('generative_step_repeatable_on_loaded_scenario', same(a, b)),
+                ('step_agrees_with_generative_step_on_loaded_scenario', same(a, c))]
     obl = []
     p = r.pure
     obl.append(('input_state_not_modified', common.rows_equal(*p['x_rows'])))
@@ -204,12 +267,17 @@ def obligations(r):
 
 
 def witnesses(r):
+    if r.q.get('loaded'):
+        return ['loaded_repeat']
     out = common.outcome_witnesses(r)
     out.append('other_state' if r.q.get('other_state') else 'current_state')
     return out
 
 
 def describe(r):
+    if r.q.get('loaded'):
+        m = lambda t: str(z3.simplify(t))
+        return dict(outcomes=[dict(reward=m(o['reward']), success=m(o['info']['success'])) for o in r.outs])
     m = lambda t: str(z3.simplify(t))
     return dict(action=r.A.kind, target=list(r.A.target), shares=r.pure['shares'],
                 same_objects=r.pure['same_objects'],
